@@ -261,8 +261,8 @@ func vxC10Run(c *vxC10Case, k *vstats.Case) error {
 			return classifyPanic("replicaMap", r.msg)
 		}
 		rm = r.rm
-	case <-time.After(20 * time.Second):
-		return fmt.Errorf("replicaMap did not return within 20 s for a ring of %d tokens on %d hosts (%d of them without tokens), keyspace %v rf=%d", len(ring), len(hosts), tokenless, rf, c.RF)
+	case <-time.After(8 * time.Second):
+		return fmt.Errorf("replicaMap did not return within 8 s for a ring of %d tokens on %d hosts (%d of them without tokens), keyspace %v rf=%d", len(ring), len(hosts), tokenless, rf, c.RF)
 	}
 	if !sort.IsSorted(rm) {
 		return fmt.Errorf("replica map is not sorted by token: %v", rm)
